@@ -8,16 +8,16 @@ SPEC = {
     "requires": "From AG Require Import SerdeRT.",
     "def_type": "sty",
     "streams": [
-        {"kind": "RT", "type": "(sty * sval * outcome gval * outcome sval)",
-         "eval": "fun c => let '(t, v, ig, ir) := c in check_rt t v ig ir", "per_shard": 120},
-        {"kind": "DE", "type": "(sty * gval * outcome sval)",
-         "eval": "fun c => let '(t, g, ir) := c in check_de t g ir", "per_shard": 150},
+        {"kind": "RT", "type": "(bool * sty * sval * outcome gval * outcome sval)",
+         "eval": "fun c => let '(q, t, v, ig, ir) := c in check_rt q t v ig ir", "per_shard": 120},
+        {"kind": "DE", "type": "(bool * sty * gval * outcome sval)",
+         "eval": "fun c => let '(q, t, g, ir) := c in check_de q t g ir", "per_shard": 150},
     ],
     "classes": {1: "some-of-null", 2: "non-finite-float", 3: "empty-tuple-variant", 4: "int128-unsupported"},
-    "n_quick": 2500, "n_thorough": 40000,
+    "n_quick": 1600, "n_thorough": 40000,
     "level": "proof",
     "what_violation": "to_value followed by from_value does not return the value",
-    "rule": ("68 compiled serde types (serde-derive structs/enums of every variant form, options, string-keyed maps, "
+    "rule": ("71 compiled serde types (serde-derive structs/enums of every variant form, options, string-keyed maps, "
              "sequences, tuples, arrays, every integer width, floats, bool, string, bytes, unit, char; nested up to 4 levels) "
              "with random boundary-biased values through the real to_value/from_value (RT), plus mutated and hand-made "
              "GraphQL values given to from_value::<T> (DE) and float rounding boundaries; distinct by (type, value); "
@@ -38,9 +38,11 @@ MANIFEST = {
     "technique": "Coq proof by induction on serde type descriptors (custom nested induction principle) + differential correspondence of serializer/deserializer models",
     "text": ("Coq theorem: for every well-formed serde type descriptor and every well-typed value outside four narrow computable "
              "classes (Some(x) with x serialised as null; non-finite floats; field-less tuple variants; 128-bit integers), "
-             "the model of from_value applied to the model of to_value returns the value; each excluded class is refuted by a "
-             "witness that also fails on the real code (recorded known findings). The models are tied to the real "
-             "to_value/from_value by running both on a compiled family of serde types with random and mutated values."),
+             "the model of from_value applied to the model of to_value returns the value; every root instance of each excluded "
+             "class provably fails and each class has a witness that also fails on the real code (recorded known findings). "
+             "The field-less tuple variant class is governed by a quirk flag inferred from the real code, so its repair is accepted "
+             "silently. The models are tied to the real to_value/from_value by running both on a compiled family of serde types "
+             "with random and mutated values."),
     "note": ("trusted: Coq kernel, harness printers, sampled agreement model vs code, serde-derive visitor protocol as modelled; "
              "theorems closed under the global context (no axioms)"),
 }
